@@ -476,6 +476,77 @@ def check_views(h, eng):
     return fails[:3]
 
 
+class Reissuer(Process):
+    """issues scripted structural directives; with cached=True the SAME dict objects are returned again and again (a
+    process that builds its directive once), otherwise an equal fresh copy each time -- both must behave identically"""
+    defaults = {'timestep': 1.0, 'cycle': [], 'cached': True, 'below': []}
+
+    def __init__(self, parameters=None):
+        super().__init__(parameters)
+        self.k = 0
+        self.cache = [self.directive(i) for i in range(len(self.parameters['cycle']))]
+
+    def directive(self, i):
+        op = self.parameters['cycle'][i]
+        if op is None:
+            return {}
+        d = {op['key']: copy.deepcopy(op['value'])}
+        for name in reversed(op['below']):
+            d = {name: d}
+        return {'colony': d}
+
+    def ports_schema(self):
+        node = {'*': {'_default': 0, '_updater': 'set'}}
+        for name in reversed(self.parameters['below']):
+            node = {name: node}
+        return {'colony': node}
+
+    def next_update(self, timestep, states):
+        i = self.k % len(self.parameters['cycle'])
+        self.k += 1
+        return self.cache[i] if self.parameters['cached'] else self.directive(i)
+
+
+def reissue_cases():
+    out = []
+    for below in ([], ['pool'], ['pool', 'deep']):
+        child = {'_default': 5, '_updater': 'set'}
+        out.append({'below': below, 'cycle': [
+            {'key': '_delete', 'value': ['x'], 'below': below},
+            {'key': '_add', 'value': [{'key': 'x', 'state': 7}], 'below': below}]})
+        out.append({'below': below, 'cycle': [
+            {'key': '_add', 'value': [{'key': 'y', 'state': 1}], 'below': below},
+            {'key': '_delete', 'value': ['y'], 'below': below}, None]})
+    return out
+
+
+def check_reissue(case):
+    trajs = []
+    for cached in (False, True):
+        init = {'x': 5, 'keep': 1}
+        for name in reversed(case['below']):
+            init = {name: init}
+        try:
+            eng = Engine(processes={'r': Reissuer({'cycle': case['cycle'], 'cached': cached, 'below': case['below']})},
+                         topology={'r': {'colony': ('colony',)}}, initial_state={'colony': init},
+                         display_info=False, emitter='null')
+            tr = []
+            for _ in range(6):
+                eng.update(1)
+                tr.append(json.dumps(strip_procs(eng.state.get_value()).get('colony'), sort_keys=True, default=repr))
+        except Exception as e:
+            tr = ['raised %s: %s' % (type(e).__name__, str(e)[:120])]
+        trajs.append(tr)
+    if trajs[0] and trajs[0][-1].startswith('raised'):
+        return ['scenario error: the run with fresh directives %s' % trajs[0][-1]]
+    if trajs[0] != trajs[1]:
+        k = next((i for i, (a_, b_) in enumerate(zip(trajs[0], trajs[1])) if a_ != b_), min(len(trajs[0]), len(trajs[1])))
+        return ['a structural directive issued again from the SAME dict object is not carried out like an equal fresh one: '
+                'after tick %d the colony is %s, with fresh directives %s'
+                % (k + 1, trajs[1][k] if k < len(trajs[1]) else None, trajs[0][k] if k < len(trajs[0]) else None)]
+    return []
+
+
 def main():
     ap = argparse.ArgumentParser()
     ap.add_argument('--prop', required=True)
@@ -483,8 +554,9 @@ def main():
     ap.add_argument('--out', default='out/replays'); ap.add_argument('--replay', default=None)
     a = ap.parse_args()
     if a.replay:
-        h = json.load(open(a.replay))['scenario']
-        fails = check_history(h, a.prop)
+        rec = json.load(open(a.replay))
+        h = rec['scenario']
+        fails = check_reissue(h) if rec.get('kind') == 'reissue' else check_history(h, a.prop)
         L.emit_result({'status': 'reproduced' if fails else 'not-reproduced', 'failed': fails})
         return
     n = {'quick': 150, 'thorough': 5000}[a.tier]
@@ -506,6 +578,16 @@ def main():
             failures.append({'id': '%s.bounded.history#%d: %s' % (a.prop, i, fails[0][:260]), 'replay': rp})
             if len(failures) >= 3:
                 break
+    if a.prop == 'C09':
+        for ci, case in enumerate(reissue_cases()):
+            if len(failures) >= 3:
+                break
+            evaluations += 1
+            fails = check_reissue(case)
+            distinct.add(json.dumps(case, sort_keys=True, default=repr))
+            if fails:
+                rp = L.write_replay(a.out, a.prop, 'reissue%d' % ci, case, fails, kind='reissue', extra={'driver': 'bounded.struct'})
+                failures.append({'id': '%s.bounded.reissue#%d: %s' % (a.prop, ci, fails[0][:260]), 'replay': rp})
     L.emit_result({'status': 'violated' if failures else 'ok', 'evaluations': evaluations,
                    'distinct_nontrivial': len(distinct), 'failures': failures, 'samples': samples,
                    'rule': 'seeded random structural histories; non-trivial = >= 2 operations; distinct by (initial size, script)'})
